@@ -112,7 +112,7 @@ Proof. vm_compute. reflexivity. Qed.
    (Generated.skel_gross_range_test: masks, comparison operators, flag constants, the order MISSING /
    SUSPECT / FAIL and the guard `suspect_span is not None`), given its numpy meaning by Skel.run_steps in the
    environment inp := xs, sspan := (flo, fhi), uspan := s, yields exactly the specification's flags *)
-From IoosQc Require Import Skel SkelProofs.
+From IoosQc Require Import Skel SkelBase SkelP_range.
 Theorem C03_source_skeleton : forall flo fhi s xs,
   run_steps (env_gross flo fhi s xs) skel_gross_range_test (all_flags (length xs) GOOD)
   = map (gross_pt flo fhi s) xs.
